@@ -276,7 +276,25 @@ def runMacro (line : String) : String :=
     | none => "bad-op"
   | _ => "bad-op"
 
+/-- stream `c02_tp` : (c02tp (STAGE…) (q xKEY…)) — the ambient snapshot of `TraceparentCtxt<ThreadLocalCtxt>` inside
+    pushed properties / root frames / pushed traceparents, judged by the implementation-side oracle alone: whatever
+    the snapshot holds (C18 models that), it is a collection whose lookup agrees with its own enumeration
+    (`get_eq_first`, `pull_get` hold of EVERY collection). The model contributes that verdict and validates the case. -/
+def runTp (line : String) : String :=
+  match Sexp.parse line with
+  | some (.list [.atom "c02tp", .list stages, .list (.atom "q" :: qs)]) =>
+    let stageOk : Sexp → Bool := fun st => match st with
+      | .list [.atom "push", t] => (tree? t).isSome
+      | .list [.atom "root", t] => (tree? t).isSome
+      | .list [.atom "tp", t, s, f] =>
+        (t == .atom "none" || t.nat?.isSome) && (s == .atom "none" || s.nat?.isSome) && (f.nat?.filter (· < 256)).isSome
+      | _ => false
+    if stages.all stageOk && qs.all (fun q => q.str?.isSome) then
+      s!"coherent\tstages={min stages.length 4},tp={min ((stages.filter fun st => match st with | .list (.atom "tp" :: _) => true | _ => false).length) 2}"
+    else "bad-op"
+  | _ => "bad-op"
+
 def streams : List (String × (String → String)) :=
-  [("c02", runC02), ("c02_static", runStatic), ("c02_macro", runMacro)]
+  [("c02", runC02), ("c02_static", runStatic), ("c02_macro", runMacro), ("c02_tp", runTp)]
 
 end EmitModel.Driver.C02
